@@ -28,8 +28,8 @@ import websocket._cookiejar as CJ
 import websocket._handshake as HS
 import websocket._http as HT
 
-OUT = "/verif/build/cookiecases"
-COQ = "/verif/coq"
+OUT = os.path.join(os.path.dirname(os.path.dirname(os.path.dirname(os.path.abspath(__file__)))), "build", "cookiecases")
+COQ = os.path.join(os.path.dirname(os.path.dirname(os.path.dirname(os.path.abspath(__file__)))), "coq")
 PER_FILE = 500
 
 NAMES = ["a", "b", "ab"]
